@@ -44,19 +44,19 @@ CHECKS = {
    note="Metamorphic; absolute correctness comes from the anchor sample and C01/C02."),
  "C08": dict(engine="eng_mem", ref="DESIGN.md §9 C08, §6",
    technique="sanitizers / UB interpreter: Miri (Stacked Borrows and Tree Borrows, optimised and debug-assertion profiles), AddressSanitizer and valgrind memcheck watching parse_float on arbitrary bytes; differential against the native run",
-   text="Exploration under memory monitors: arbitrary byte strings (every byte value, lengths around every cut-off, any exponent) plus valid inputs aimed at each unchecked-index site are executed under Miri in both aliasing models and under ASan (valgrind in thorough); any Undefined Behaviour / sanitizer report with a frame in the crate is a violation, a clean panic is allowed and counted. Evidence lists executions per tool.",
+   text="Exploration under memory monitors: arbitrary byte strings (every byte value, lengths around every cut-off, any exponent) plus valid inputs aimed at each unchecked-index site are executed under Miri in both aliasing models and under ASan (valgrind in thorough); any Undefined Behaviour / sanitizer report with a frame in the crate is a violation, a clean panic is allowed and counted. Evidence lists executions per tool and (thorough) which lines with unsafe operations the driver executed.",
    note="Decided for the paths reached, under each tool's model; Miri executes 10^3-10^5 cases, ASan/valgrind 10^6+ but are blind to intra-object overflow."),
  "C11": dict(engine="eng_moderate", ref="DESIGN.md §9 C11",
    technique="runtime monitoring: exact interval oracle on direct calls of the extended-precision stage (Eisel-Lemire / Bellerophon) over number-theoretic worst cases, boundary prefixes, ties and table/early-out limits",
-   text="Exploration with deciding oracle on the stage itself: (w, q, truncated) triples incl. the complete continued-fraction corpus (distance to a rounding boundary down to 2^-120), every definite answer checked against w*10^q and, when truncated, the whole interval [w, w+1)*10^q; branch coverage of the stage (second product, tie-to-even, subnormal, w/w+1 disagreement, Bellerophon error check) comes from hooks and is required.",
+   text="Exploration with deciding oracle on the stage itself: (w, q, truncated) triples incl. the complete continued-fraction corpus (distance to a rounding boundary down to 2^-120), every significand below 384 (quick) / 16384 (thorough) at every exponent (bounded-exhaustive), the constructed lo==MAX cases; every definite answer checked against w*10^q and, when truncated, the whole interval [w, w+1)*10^q; branch coverage of the stage (second product, tie-to-even, subnormal, w/w+1 disagreement, Bellerophon error check) comes from hooks and is required.",
    note="Same oracle as C01; truncated is combined only with 1 <= w <= u64::MAX-1."),
  "C12": dict(engine="eng_bigint", ref="DESIGN.md §9 C12",
    technique="runtime monitoring: reference-model monitor (independent big naturals) after every big-integer operation on both storage back-ends, incl. success/failure against the capacity; Miri slice compared with the native run",
-   text="Exploration: millions of single operations with explicit operands sized to land at 60..64 limbs, all powers 0..1720, all shift counts, sticky bit at every depth; each result (value, length, Some/None/panic) compared with schoolbook reference arithmetic; a lean slice runs under Miri SB/TB.",
+   text="Exploration: millions of single operations with explicit operands sized to land at 60..64 limbs, all powers 0..1720, all shift counts, sticky bit at every depth, every pair of 1..3-limb vectors over the boundary alphabet {0,1,2,MAX-1,MAX,2^63} (bounded-exhaustive); each result (value, length, Some/None/panic) compared with schoolbook reference arithmetic; a lean slice runs under Miri SB/TB.",
    note="Reference naturals are the harness' own (also used by the value oracle, cross-checked against Python)."),
  "C13": dict(engine="eng_bigint", ref="DESIGN.md §9 C13",
    technique="runtime monitoring: executable sequence model checked after every operation of random operation histories on StackVec / HeapVec, natively and under Miri (Stacked + Tree Borrows)",
-   text="Exploration over histories: many short histories (20..400 operations) that fill to capacity, hover and drain; length, contents, return values, failed-operation-changes-nothing, numeric ordering are compared with a plain-sequence model after every step; the same histories run under Miri where reads of never-written slots or out-of-range writes are Undefined Behaviour reports.",
+   text="Exploration over histories: many short histories (20..400 operations) that fill to capacity, hover and drain, plus every sequence of 4 (quick) / 5 (thorough) capacity-relevant operations from 8 start states (small-scope exhaustive); length, contents, return values, failed-operation-changes-nothing, numeric ordering are compared with a plain-sequence model after every step; the same histories run under Miri where reads of never-written slots or out-of-range writes are Undefined Behaviour reports.",
    note="Numeric ordering judged on normalized vectors; heap histories stay <= 62 limbs in debug-assertion builds."),
  "C14": dict(engine="eng_consts", ref="DESIGN.md §9 C14",
    technique="runtime monitoring, complete enumeration: the running program of each configuration dumps every power constant it sees (table, u64::pow, std powf, bundled libm); an offline Python checker recomputes each definition",
